@@ -21,8 +21,8 @@ theorem evalSteps_clean (sg : Bool) (name : Name) :
     | c :: rest, hlen =>
       have hr : rest.length = 12 := by simpa using hlen
       have hscan := scan_lt sg (c :: rest) (.or (.cmp .lt 48) (.cmp .gt 57)) 11 (by simp [hr]) 15 1 (by omega)
-      have hb : ((c :: rest).length + sizeMod - 2) % sizeMod = 11 := by
-        simp only [List.length_cons, hr, sizeMod]
+      have hl : (c :: rest).length = 13 := by simp [hr]
+      have hb : ((c :: rest).length + sizeMod - 2) % sizeMod = 11 := by rw [hl]; decide
       have hf : (c :: rest).length + 2 = 15 := by simp [hr]
       simp only [cleanSteps, evalSteps, evalStep, hb, hf, hscan, charAt_lt (c :: rest) 0 (by simp),
         firstChar_cond, cmpInt]
